@@ -435,6 +435,19 @@ func (f *Footer) hasDroppedChildren(ss *segmentStack) bool {
 	return false
 }
 
+// hasNewChildren returns true when the given segmentStack (recursively)
+// holds a child collection that this footer does not list yet, which
+// means the creation of that child collection has yet to be persisted.
+func (f *Footer) hasNewChildren(ss *segmentStack) bool {
+	for cName, childStack := range ss.childSegStacks {
+		childFooter, exists := f.ChildFooters[cName]
+		if !exists || childFooter.hasNewChildren(childStack) {
+			return true
+		}
+	}
+	return false
+}
+
 // childFileRef returns the FileRef of the first persisted segment found
 // in the child footers (recursively), or nil.
 func (f *Footer) childFileRef() *FileRef {
